@@ -183,6 +183,7 @@ class Interp:
         self.all_snaps = []
         self.use_old = False
         self.call_log = []
+        self.fresh_dicts, self._keep = set(), []
         self._anchor = []          # innermost contract whose hint / lemma anchors apply (inherited by inlined same-module helpers)
 
     # =========================================================================================
@@ -332,6 +333,8 @@ class Interp:
 
     def e_Dict(self, node, frame, pure):
         d = {}
+        self.fresh_dicts.add(id(d))
+        self._keep.append(d)          # keep alive: ids of collected objects could be reused
         for k, v in zip(node.keys, node.values):
             kk = self.eval(k, frame, pure)
             if not isinstance(kk, str):
@@ -339,8 +342,55 @@ class Interp:
             d[kk] = self.eval(v, frame, pure)
         return d
 
+    def e_DictComp(self, node, frame, pure):
+        if len(node.generators) != 1 or node.generators[0].ifs or node.generators[0].is_async:
+            raise Unsupported("dict comprehension shape")
+        g = node.generators[0]
+        it = self.eval(g.iter, frame, pure)
+        if not isinstance(it, (list, tuple)):
+            raise Unsupported("dict comprehension over %r" % (type(it).__name__,))
+        sub = Frame(frame.finfo, frame.module, dict(frame.env), closure=frame.closure)
+        d = {}
+        self.fresh_dicts.add(id(d))
+        self._keep.append(d)
+        for x in it:
+            self.assign(g.target, x, sub)
+            k = self.eval(node.key, sub, pure)
+            if not isinstance(k, str):
+                raise Unsupported("dict key not a concrete str")
+            d[k] = self.eval(node.value, sub, pure)
+        return d
+
     def e_JoinedStr(self, node, frame, pure):
-        raise Unsupported("f-string")
+        """f-string: literal pieces and {expr} / {expr:x} / {expr:0Nx} / {expr!s} of ints and strs, as the equivalent concatenation"""
+        out = None
+        for part in node.values:
+            if isinstance(part, ast.Constant) and isinstance(part.value, str):
+                piece = part.value
+            elif isinstance(part, ast.FormattedValue):
+                v = self.eval(part.value, frame, pure)
+                spec = None
+                if part.format_spec is not None:
+                    if not (isinstance(part.format_spec, ast.JoinedStr) and all(isinstance(x, ast.Constant) for x in part.format_spec.values)):
+                        raise Unsupported("f-string format spec")
+                    spec = "".join(x.value for x in part.format_spec.values)
+                if part.conversion not in (-1, 115):
+                    raise Unsupported("f-string conversion")
+                if spec in (None, ""):
+                    if isinstance(v, str) or isinstance(v, SStr):
+                        piece = v
+                    elif isintlike(v) and not isinstance(v, bool):
+                        piece = lib.call_builtin(self, SBuiltin("str"), [v], {}, pure)
+                    else:
+                        raise Unsupported("f-string of %r" % (type(v).__name__,))
+                elif re.fullmatch(r"0?\d*x", spec) and isintlike(v):
+                    piece = self.str_format("%" + spec, v)
+                else:
+                    raise Unsupported("f-string format spec %r" % spec)
+            else:
+                raise Unsupported("f-string part")
+            out = piece if out is None else self.binop(ast.Add(), out, piece, pure)
+        return "" if out is None else out
 
     def e_Lambda(self, node, frame, pure):
         raise Unsupported("lambda")
@@ -860,6 +910,20 @@ class Interp:
             return self.obj_getattr(v, name, pure)
         if isinstance(v, SModule):
             return self.module_attr(v, name)
+        if isinstance(v, SSuper):
+            # the first class after `after` (in the MRO of `after`: single inheritance in this code base; for multiple inheritance the
+            # MRO of type(obj) would be needed - rejected below) that defines `name`
+            if len(self.repo.bases(v.after)) > 1:
+                raise Unsupported("super() with multiple inheritance")
+            for c in self.repo.mro(v.after)[1:]:
+                if isinstance(c, ClassInfo) and name in c.methods:
+                    f = c.methods[name]
+                    if f.is_staticmethod:
+                        return SFunc(f)
+                    sf = SFunc(f, v.bound)
+                    sf.static = True          # no dynamic dispatch: exactly this class's method
+                    return sf
+            raise Raise("AttributeError")
         if isinstance(v, SClass):
             f = self.repo.lookup_method(v.cinfo, name)
             if f is not None:
@@ -998,6 +1062,18 @@ class Interp:
 
     # ---- calls --------------------------------------------------------------------------------
     def e_Call(self, node, frame, pure):
+        if isinstance(node.func, ast.Name) and node.func.id == "super" and not pure and not node.keywords and "super" not in frame.env:
+            # super() inside a method of class C with first parameter self/cls;  super(C, obj)
+            if not node.args:
+                fi = frame.finfo
+                if fi is None or fi.cls is None or not fi.node.args.args:
+                    raise Unsupported("super() outside a method")
+                return SSuper(frame.env[fi.node.args.args[0].arg], fi.cls)
+            if len(node.args) == 2:
+                c0 = self.eval(node.args[0], frame, pure)
+                if isinstance(c0, SClass):
+                    return SSuper(self.eval(node.args[1], frame, pure), c0.cinfo)
+            raise Unsupported("super(...) form")
         # contract-language specials
         if isinstance(node.func, ast.Name) and pure:
             nm = node.func.id
@@ -1078,7 +1154,16 @@ class Interp:
         kwargs = {}
         for k in node.keywords:
             if k.arg is None:
-                raise Unsupported("**kwargs")
+                d = self.eval(k.value, frame, pure)
+                if isinstance(d, dict) and all(isinstance(x, str) for x in d):
+                    for kk, vv in d.items():
+                        if kk in kwargs:
+                            raise Raise("TypeError")       # multiple values for keyword argument
+                        kwargs[kk] = vv
+                    continue
+                raise Unsupported("**kwargs of %r" % (type(d).__name__,))
+            if k.arg in kwargs:
+                raise Raise("TypeError")
             kwargs[k.arg] = self.eval(k.value, frame, pure)
         return self.call(fv, args, kwargs, node=node, pure=pure)
 
@@ -1291,6 +1376,13 @@ class Interp:
                     self.assign(t, x, frame)
             else:
                 raise Unsupported("unpack of %r" % (v,))
+        elif isinstance(target, ast.Subscript) and isinstance(target.value, ast.Name) and target.value.id in frame.env \
+                and isinstance(frame.env[target.value.id], dict) and id(frame.env[target.value.id]) in self.fresh_dicts:
+            # d[k] = v  on a dict built by a dict display in this very path (a local container), literal str key
+            k = self.eval(target.slice, frame)
+            if not isinstance(k, str):
+                raise Unsupported("dict key not a concrete str")
+            frame.env[target.value.id][k] = v
         else:
             raise Unsupported("assignment target %s" % type(target).__name__)
 
